@@ -80,6 +80,8 @@ types.append(record("Hold3", [field("hb", ref("Base3"), default="{}"), field("hs
 types.append(record("Plain3", [field("p", prim("string"), True)], includes=["Mid3"]))
 # a record with more required fields than a machine word has bits
 types.append(record("Wide", [field("f%02d" % i, prim("string")) for i in range(66)]))
+# a record without any required field of its own whose nested records have some
+types.append(record("Opt", [field("child", ref("Leaf"), True), field("items", arr(ref("Leaf")), True), field("byName", mp(ref("Leaf")), True)]))
 types.append(record("KParams", [field("x", prim("int32"), True)]))
 ck = named("Ck"); ck["Key"] = {"name": "Inner", "namespace": NS}; ck["Params"] = {"name": "KParams", "namespace": NS}
 types.append({"complexKey": ck})
